@@ -1,4 +1,4 @@
 From Coq Require Import Extraction ExtrOcamlBasic List NArith.
 From BioVerif Require Import Lib.Conv Model.Reconf Spec.ReconfSpec.
 Extraction Language OCaml.
-Extraction "c36_model.ml" conv_anchor init reload start state_of load wanted lookup.
+Extraction "c36_model.ml" conv_anchor init reload start state_of load wanted lookup reload_restarts key_eqb.
